@@ -14,7 +14,7 @@ pkgdir() { # map a test file to its package directory
   local pk=$(grep -m1 '^package ' "$1" | awk '{print $2}' | sed 's/_test$//')
   case $pk in
     protocol) echo cmd/rdpgw/protocol;; security) echo cmd/rdpgw/security;; web) echo cmd/rdpgw/web;; transport) echo cmd/rdpgw/transport;;
-    kdcproxy) echo cmd/rdpgw/kdcproxy;; ntlm) echo cmd/auth/ntlm;; config) echo cmd/rdpgw/config;; identity) echo cmd/rdpgw/identity;; main) echo cmd/rdpgw;;
+    kdcproxy) echo cmd/rdpgw/kdcproxy;; ntlm) echo cmd/auth/ntlm;; database) echo cmd/auth/database;; config) echo cmd/rdpgw/config;; identity) echo cmd/rdpgw/identity;; main) echo cmd/rdpgw;;
     rdp) if grep -q 'NewBuilder' "$1"; then echo cmd/rdpgw/rdp; elif grep -q 'Unmarshal\|Parser()' "$1"; then echo cmd/rdpgw/rdp/koanf/parsers/rdp; else echo cmd/rdpgw/rdp; fi;;
     *) echo "";;
   esac
